@@ -117,11 +117,13 @@ func vexpByte(p string, neg bool) int {
 // C13 integers: Unpack(Pack(n)) == n for every int64, PackSize == length, and the bytes are the
 // canonical number format with value n.
 //
-//symgo:harness prop=C13 tier=quick arith=int shards=3 tshards=16 timeout=300 ttimeout=1500 bounds=quick:_all_int64_with_1..3_digits,_17_digits_(0_or_16_trailing_zeros),_19_digits_(0,1,2_or_18_trailing_zeros),_zero;thorough:_every_int64
+//symgo:harness prop=C13 tier=quick arith=int solver=z3-new shards=4 tshards=16 timeout=300 ttimeout=1500 bounds=quick:_all_int64_with_1..5_or_16_digits,_10_digits_(0_or_9_trailing_zeros),_17_(0,16),_18_(0),_19_digits_(0,1,2,17_or_18_trailing_zeros),_zero;thorough:_every_int64
 func VerifC13IntRoundTrip() {
 	c := vpickClass("n", []vclass{{false, 0, 0},
-		{false, 1, -1}, {false, 2, -1}, {false, 3, -1}, {false, 17, 0}, {false, 17, 16}, {false, 19, 0}, {false, 19, 1}, {false, 19, 18},
-		{true, 1, -1}, {true, 2, -1}, {true, 3, -1}, {true, 17, 0}, {true, 17, 16}, {true, 19, 0}, {true, 19, 1}, {true, 19, 2}, {true, 19, 18}})
+		{false, 1, -1}, {false, 2, -1}, {false, 3, -1}, {false, 4, -1}, {false, 5, -1}, {false, 10, 0}, {false, 10, 9}, {false, 16, -1},
+		{false, 17, 0}, {false, 17, 16}, {false, 18, 0}, {false, 19, 0}, {false, 19, 1}, {false, 19, 18},
+		{true, 1, -1}, {true, 2, -1}, {true, 3, -1}, {true, 4, -1}, {true, 5, -1}, {true, 10, 0}, {true, 10, 9}, {true, 16, -1},
+		{true, 17, 0}, {true, 17, 16}, {true, 18, 0}, {true, 19, 0}, {true, 19, 1}, {true, 19, 2}, {true, 19, 17}, {true, 19, 18}})
 	n := vint("n", c)
 	x := SuInt64{int64: n}
 	p := Pack(x)
@@ -155,7 +157,7 @@ func VerifC13IntRoundTrip() {
 // int or as a decimal (canonical encoding). Every int64 that a decimal can hold exactly (at most
 // 16 significant digits) is in the thorough bound.
 //
-//symgo:harness prop=C13 tier=quick arith=int shards=3 tshards=16 timeout=300 ttimeout=1500 bounds=quick:_integers_of_1..4_digits,_16_digits_(0,1,15_trailing_zeros),_17_(1,16)_and_19_digits_(3,18);thorough:_every_int64_with_at_most_16_significant_digits;small_ints_in_int16
+//symgo:harness prop=C13 tier=quick arith=int solver=z3-new shards=3 tshards=16 timeout=300 ttimeout=1500 bounds=quick:_integers_of_1..4_digits,_16_digits_(0,1,15_trailing_zeros),_17_(1,16)_and_19_digits_(3,18);thorough:_every_int64_with_at_most_16_significant_digits;small_ints_in_int16
 func VerifC13IntCanonical() {
 	var c vclass
 	if rt.Thorough() {
@@ -178,6 +180,12 @@ func VerifC13IntCanonical() {
 	rt.Reach("packed")
 	rt.Observe("p1", p1)
 	rt.Observe("p2", p2)
+	// both encodings are first checked against the format statement (value n); the solver then
+	// has the two digit sums as lemmas when it compares the bytes
+	e := rt.Concrete(vexpByte(p1, c.neg))
+	rt.Assert("encoding/exponent", e == c.k && vexpByte(p2, c.neg) == e)
+	vcheckNumEncoding(p1, c.neg, e, rt.ZI(n).Abs(), 0)
+	vcheckNumEncoding(p2, c.neg, e, rt.ZI(n).Abs(), 0)
 	rt.Assert("canonical/int64-vs-decimal", p1 == p2)
 	if c.k <= 5 && MinSuInt <= n && n <= MaxSuInt {
 		rt.Reach("smallint")
@@ -217,7 +225,7 @@ type vpair struct{ a, b vclass }
 // C13 integers: byte order of packed integers == numeric order, directly on pairs of int64.
 // (All pairs of decimals, hence of integers up to 16 digits, are in VerifC13DnumOrder.)
 //
-//symgo:harness prop=C13 tier=quick arith=int shards=6 tshards=16 timeout=300 ttimeout=1700 bounds=pairs_a<b_of_int64;quick:_both_1..3_digits_same_sign,_(1|2,_2|3_digits),_17|17,_19|19,_18|19_digits_(no_trailing_zero),_mixed_signs_1..2_digits_and_19_digits_and_zero;thorough:_same_sign_and_digit_count_up_to_8_digits_(any),_9..19_digits_(0,1,k-1_trailing_zeros),_all_digit-count_pairs_(no_trailing_zero),_adjacent_digit_counts_up_to_6_(any),_all_mixed-sign_digit-count_pairs_(no_trailing_zero)
+//symgo:harness prop=C13 tier=quick arith=int solver=z3-new shards=6 tshards=16 timeout=300 ttimeout=1700 bounds=pairs_a<b_of_int64;quick:_both_1..3_digits_same_sign,_(1|2,_2|3_digits),_17|17,_19|19,_18|19_digits_(no_trailing_zero),_mixed_signs_1..2_digits_and_19_digits_and_zero;thorough:_same_sign_and_digit_count_up_to_8_digits_(any),_9..19_digits_(0,1,k-1_trailing_zeros),_all_digit-count_pairs_(no_trailing_zero),_adjacent_digit_counts_up_to_6_(any),_all_mixed-sign_digit-count_pairs_(no_trailing_zero)
 func VerifC13IntOrder() {
 	var ca, cb vclass
 	if rt.Thorough() {
@@ -300,7 +308,7 @@ func vfiniteDnum(x dnum.Dnum) bool { return x.Sign() == 1 || x.Sign() == -1 }
 // exactly its value, and Unpack returns an equal value (the same decimal, or the exactly equal
 // integer).
 //
-//symgo:harness prop=C13 tier=quick arith=int shards=4 tshards=8 timeout=300 ttimeout=900 bounds=all_valid_Dnum:_zero,_+-inf,_both_signs,_all_16-digit_coefficients,_all_int8_exponents
+//symgo:harness prop=C13 tier=quick arith=int solver=z3-new shards=4 tshards=8 timeout=300 ttimeout=900 bounds=all_valid_Dnum:_zero,_+-inf,_both_signs,_all_16-digit_coefficients,_all_int8_exponents
 func VerifC13DnumRoundTrip() {
 	x := vdnum("x")
 	sx := SuDnum{Dnum: x}
@@ -355,7 +363,7 @@ func VerifC13DnumRoundTrip() {
 // == order by value (model: sign class, then (exponent, coefficient) since coefficients are
 // normalised), and equal values have equal bytes.
 //
-//symgo:harness prop=C13 tier=quick arith=int shards=6 tshards=8 timeout=300 ttimeout=900 bounds=all_pairs_x<=y_of_valid_Dnum_(zero,_+-inf,_both_signs,_all_16-digit_coefficients,_all_int8_exponents)
+//symgo:harness prop=C13 tier=quick arith=int solver=z3-new shards=8 tshards=8 timeout=300 ttimeout=900 bounds=all_pairs_x<=y_of_valid_Dnum_(zero,_+-inf,_both_signs,_all_16-digit_coefficients,_all_int8_exponents)
 func VerifC13DnumOrder() {
 	x, y := vdnum("x"), vdnum("y")
 	// value order model
